@@ -9,7 +9,9 @@ RULE = ("normalize_piece_length on every integer -2048..2^21 (quick: ..2^18), ev
         "|n-2^k|<=2 for k<=80, random big integers, numeric/non-numeric strings; the same "
         "decision through TorrentFile(piece_length=), `create --piece-length` and the config "
         "file on a sample; get_piece_length on boundaries 1000*2^k+-2 and random sizes up to "
-        "2^80 (monotonicity on sorted sample); distinct by value; non-trivial when within 2 of "
+        "2^80 (monotonicity on sorted sample); automatic choice recorded by the creators for "
+        "payload directories that reach their bytes through symbolic links (to files, to a "
+        "directory) next to plain payloads: monotone in the recorded payload size; distinct by value; non-trivial when within 2 of "
         "a power of two or > 2^14 and not a power of two, or a string")
 
 STRINGS = ["9" * 400, "1" + "0" * 320, "7" * 4300, "", " ", "14", "25", "26", "13", "16384", "16385", "015", "0", "00016384", "+15",
@@ -245,6 +247,11 @@ def run(tier, seed, replay=None):
                         run.fail("impl-vs-spec", {"route": "auto-create", "creator": kind,
                                                   "sizes_so_far": seq, "size": size + 10},
                                  {"impl": got, "spec": want})
+    # automatic choice recorded by the creators for payloads that reach their bytes through links
+    if not replay or replay["case"].get("route") == "auto-links":
+        from harness.common import guarded
+        # (own generator: the stream used by the other sections stays what it was)
+        guarded(run, {"route": "auto-links"}, auto_links, run, random.Random(f"{seed}/auto-links"), tier)
     # automatic choice
     from torrentfile.utils import get_piece_length
     sizes = [0, 1, 2 ** 50, 2 ** 60, 2 ** 80]
@@ -286,6 +293,102 @@ def run(tier, seed, replay=None):
             run.fail("spec-vs-ref", {"value": (dec(v) if kind == "i" else str(v))[:50]}, {"model": out, "ref": want})
     common_translated_tie(run, ["normalize_piece_length", "get_piece_length"])
     return run.finish()
+
+
+def _sparse(path, size):
+    os.makedirs(os.path.dirname(path), exist_ok=True)
+    with open(path, "wb") as fd:
+        fd.write(b"torrentfile")            # (not all zero)
+        fd.truncate(size)
+
+
+def recorded_payload(info):
+    """Number of payload bytes a metafile describes (padding entries are not payload)."""
+    if b"files" in info:
+        return sum(e[b"length"] for e in info[b"files"] if b"p" not in e.get(b"attr", b""))
+    if b"length" in info:
+        return info[b"length"]
+
+    def walk(tree):
+        return sum(v[b""][b"length"] if b"" in v else walk(v) for v in tree.values())
+    return walk(info[b"file tree"])
+
+
+def auto_links(run, rng, tier):
+    """Payload directories assembled (partly) from symbolic links - links to files, a link to a
+    directory - next to plain payloads of other sizes.  The creators follow links: the linked bytes
+    are listed and hashed, they are payload.  With no piece length given, the recorded piece length
+    must be a power of two in 16 KiB .. 16 MiB and must not be smaller for a larger payload
+    (payload size = what the metafile itself records)."""
+    M = 1_000_000
+    with sandbox("c12l") as box:
+        store = os.path.join(box, "store")
+        _sparse(os.path.join(store, "m1"), 12 * M)
+        _sparse(os.path.join(store, "m2"), 12 * M)
+        _sparse(os.path.join(store, "dir", "x"), 9 * M)
+        _sparse(os.path.join(store, "dir", "deeper", "y"), 9 * M)
+        _sparse(os.path.join(store, "dir", "z"), 3000)
+        sizes = {"m1": 12 * M, "m2": 12 * M, "dir": 18 * M + 3000}
+        payloads = []      # (label, root, bytes the harness put there / linked in)
+
+        def payload(label, plain=(), file_links=(), dir_links=()):
+            root = os.path.join(box, label, "p")
+            total = 0
+            for rel, n in plain:
+                _sparse(os.path.join(root, rel), n)
+                total += n
+            for rel, target in file_links + dir_links:
+                path = os.path.join(root, rel)
+                os.makedirs(os.path.dirname(path), exist_ok=True)
+                os.symlink(os.path.join(store, target), path)
+                total += sizes[target]
+            payloads.append((label, root, total))
+        payload("plain10", plain=[("a", 10 * M), ("d/b", 5)])
+        payload("plain17", plain=[("a", 17 * M), ("d/b", 5)])
+        payload("linked-files-24", plain=[("readme", 100)], file_links=(("one", "m1"), ("sub/two", "m2")))
+        payload("linked-dir-18", plain=[("readme", 100)], dir_links=(("media", "dir"),))
+        payload("plain24", plain=[("one", 12 * M), ("sub/two", 12 * M), ("readme", 100)])
+        payload("plain34", plain=[("a/b/c", 34 * M)])
+        payload("linked-all-42", plain=[("readme", 100)], file_links=(("one", "m1"), ("sub/two", "m2")),
+                dir_links=(("sub/media", "dir"),))
+        for i in range(2 if tier == "quick" else 12):
+            # random split of a payload around a threshold into plain and linked bytes
+            want_total = rng.choice([16_384_000, 32_768_000]) + rng.choice([-M, -1, 1, M, 5 * M])
+            linked = [t for t in ("m1", "m2", "dir") if rng.random() < 0.6]
+            while sum(sizes[t] for t in linked) >= want_total:
+                linked.pop()
+            rest = want_total - sum(sizes[t] for t in linked)
+            payload(f"random{i}", plain=[("rest.bin", rest)],
+                    file_links=tuple((f"l{j}/{t}", t) for j, t in enumerate(linked) if t != "dir"),
+                    dir_links=tuple((f"l{j}/{t}", t) for j, t in enumerate(linked) if t == "dir"))
+        out = os.path.join(box, "auto.torrent")
+        for kind in ("v1", "cli-v2", "hy", "v2", "cli-v1"):
+            seen = []
+            for label, root, known in payloads:
+                if kind in ("hy", "v2", "cli-v1") and label not in ("plain17", "linked-files-24", "linked-dir-18"):
+                    continue
+                if kind.startswith("cli"):
+                    impl.cli(["create", "--prog", "0", "--meta-version", kind[-1], "-o", out, root])
+                    with open(out, "rb") as fd:
+                        raw = fd.read()
+                else:
+                    raw = impl.create(kind, root, out)
+                info = impl.decode(raw)[b"info"]
+                got, size = info[b"piece length"], recorded_payload(info)
+                seen.append((size, got, label, known))
+                run.case(f"auto-links:{kind}:{label}:{size}", True,
+                         classes=["auto-links", "auto-links:linked" if "linked" in label or "random" in label else "auto-links:plain"])
+                if not (isinstance(got, int) and got & (got - 1) == 0 and 2 ** 14 <= got <= 2 ** 24):
+                    run.fail("impl-vs-spec", {"route": "auto-links", "creator": kind, "payload": label, "size": size},
+                             {"impl": got, "spec": "a power of two in 2^14 .. 2^24"})
+            seen.sort()
+            for (s0, g0, l0, _), (s1, g1, l1, _) in zip(seen, seen[1:]):
+                if s1 > s0 and g1 < g0:
+                    run.fail("impl-vs-spec", {"route": "auto-links", "creator": kind,
+                                              "payloads": [[l, s, k] for s, _, l, k in seen]},
+                             {"why": "the automatic piece length decreases as the payload grows",
+                              "smaller payload": [l0, s0, g0], "larger payload": [l1, s1, g1]})
+                    break
 
 
 def _route(route, v, root, box, PLE):
